@@ -626,8 +626,16 @@ func o1Job(j Job) (res Result) {
 			} else if d == "indexer" {
 				detail = fmt.Sprintf("got %s want %s", o.index, ref.o.index)
 			}
-			viol("C07:proposer-path:"+d+"-differs:"+class, fmt.Sprintf("state=%v cfg=%s height=%d block=%v (failing at positions %v, size-excluded at %v): after the proposer-path ApplyBlock the %s differs from the same block with those transactions deleted: %s",
-				recipeList(j.Path), cfg.name, w.h, seqNames(seq), wantFailed, wantOver, d, detail), seq)
+			// consequence: would a replica accept the block this proposer broadcasts?
+			c.FSM.Reset()
+			_, re := c07lib.ReplicaApply(c, c07lib.BlockFromProposal(p))
+			c.FSM.Reset()
+			cons := "replicas ACCEPT the proposed block"
+			if re != nil {
+				cons = "replicas REFUSE the proposed block: " + strings.ReplaceAll(re.Error(), "\n", " ")
+			}
+			viol("C07:proposer-path:"+d+"-differs:"+class, fmt.Sprintf("state=%v cfg=%s (max tx bytes per block %d) height=%d block=%v tx sizes=%v (failing at positions %v, size-excluded at %v): after the proposer-path ApplyBlock(allowOversize=true) the %s differs from the same block with those transactions deleted: %s; %s",
+				recipeList(j.Path), cfg.name, w.maxSize, w.h, seqNames(seq), sizes(txs), wantFailed, wantOver, d, detail, cons), seq)
 			continue
 		}
 		lastP = p
@@ -670,6 +678,14 @@ func o1Job(j Job) (res Result) {
 	return
 }
 
+func sizes(txs [][]byte) []int {
+	var out []int
+	for _, t := range txs {
+		out = append(out, len(t))
+	}
+	return out
+}
+
 // classOf is the canonical class of a block for violation signatures.
 func classOf(seq []int, failed, over []int) string {
 	set := map[string]bool{}
@@ -681,11 +697,10 @@ func classOf(seq []int, failed, over []int) string {
 		names = append(names, n)
 	}
 	sort.Strings(names)
-	s := "fail=" + strings.Join(names, "+")
 	if len(over) > 0 {
-		s += ":size-excluded"
+		return "size-excluded" // dominates: the block contains a transaction excluded for size (with or without failing ones)
 	}
-	return s
+	return "fail=" + strings.Join(names, "+")
 }
 
 // ---------------------------------------------------------------------------------------
